@@ -12,7 +12,8 @@ class ParserError(Exception):
 
 class ParserException(ParserError):
     def __init__(self, message: str, location: Location) -> None:
-        self.location = location
+        # Copy: the token's location dict is updated when the token is matched again
+        self.location = {**location}
         super().__init__(
             "("
             + str(location["line"])
